@@ -170,37 +170,66 @@ func c02R1(p *Prog, r *Report) {
 		}
 		r.Check(good, rule, "ss2022.(*ShadowStreamClientConn).initRead:parses-authenticated-plaintext", ps.Pos(), "the response header parsed is the plaintext of a successful AEAD open", "the response header is parsed before / without a successful AEAD open")
 	}
-	fp := p.Func("ss2022", "ShadowStreamClientConn", "readFirstPayloadChunk")
-	good := false
-	for _, cs := range fp.AllCalls() {
-		if !isDecryptCall(cs.Fn) {
-			continue
-		}
-		eo := cs.ResultVar(-1)
-		for _, ret := range fp.Returns() {
-			rs := fp.G.V[ret].Node.(*ast.ReturnStmt)
-			if len(rs.Results) == 1 && fp.G.Dominates([]int{cs.V}, ret) && eo != nil && objOf(fp.Info(), rs.Results[0]) == eo && fp.SoleDef(ret, eo, cs.V) {
-				good = true
-			}
-		}
-		// and the read before it is guarded
-		for _, rf := range fp.CallsTo(isFn("io", "", "ReadFull")) {
-			if !rf.SuccessGuards(cs.V) {
-				good = false
-			}
-		}
+	// (d2) no AEAD verdict is dropped, whichever function holds the open: in every function of
+	// the package the error of an AEAD open (or of a helper that passes one through, found by
+	// fixpoint) is either tested or returned as the function's own error, and every io.ReadFull
+	// that can reach the open does so only on its success edge.
+	passThrough := map[*types.Func]bool{}
+	type verdict struct {
+		cs       CallSite
+		ok, read bool
 	}
-	r.Check(good, rule, "ss2022.(*ShadowStreamClientConn).readFirstPayloadChunk:returns-open-error", p.posStr(fp.Body.Pos()), "returns the AEAD open's error after a successful full read", "the first payload chunk's AEAD result is not what the function reports")
-	// callers of readFirstPayloadChunk use the buffer only on nil
-	p.AllFuncs(pkg, func(top *FuncCtx) {
-		for _, fc := range allCtxs(p, top) {
-			for _, cs := range fc.CallsTo(isFn(mp("ss2022"), "ShadowStreamClientConn", "readFirstPayloadChunk")) {
-				ok := len(cs.ResultEdges(-1, WantNil)) > 0
-				// every exit reachable on the failure edges is an error return with zero count
-				r.Check(ok, rule, fc.Name+":checks-first-payload-open", cs.Pos(), "the first payload chunk's open error is tested", "the result of opening the first payload chunk is ignored")
+	var verdicts map[string]verdict
+	for changed := true; changed; {
+		changed = false
+		verdicts = map[string]verdict{}
+		p.AllFuncs(pkg, func(top *FuncCtx) {
+			if top.Obj != nil && recvTypeOf(top.Obj) != nil && strings.HasSuffix(namedTypeName(recvTypeOf(top.Obj)), "Cipher") {
+				return // the ciphers themselves (C01)
 			}
-		}
-	})
+			for _, fc := range allCtxs(p, top) {
+				n := 0
+				for _, cs := range fc.AllCalls() {
+					if cs.Fn == nil || !(isDecryptCall(cs.Fn) || passThrough[cs.Fn]) {
+						continue
+					}
+					n++
+					tested := len(cs.ResultEdges(-1, WantNil)) > 0
+					returned := false
+					eo := cs.ResultVar(-1)
+					for _, ret := range fc.Returns() {
+						rs := fc.G.V[ret].Node.(*ast.ReturnStmt)
+						if len(rs.Results) == 0 {
+							continue
+						}
+						last := ast.Unparen(rs.Results[len(rs.Results)-1])
+						if last == cs.Call || (len(rs.Results) == 1 && last == cs.Call) {
+							returned = true
+						}
+						if eo != nil && objOf(fc.Info(), last) == eo && fc.SoleDef(ret, eo, cs.V) && fc.G.Dominates([]int{cs.V}, ret) {
+							returned = true
+						}
+					}
+					if returned && !tested && fc.Obj != nil && !passThrough[fc.Obj] {
+						passThrough[fc.Obj] = true
+						changed = true
+					}
+					readOK := true
+					for _, rf := range fc.CallsTo(isFn("io", "", "ReadFull")) {
+						if fc.G.ReachAfter(rf.V, nil, nil)[cs.V] && !rf.SuccessGuards(cs.V) {
+							readOK = false
+						}
+					}
+					verdicts[fmt.Sprintf("%s:open#%d", fc.Name, n)] = verdict{cs, tested || returned, readOK}
+				}
+			}
+		})
+	}
+	for key, v := range verdicts {
+		r.Check(v.ok, rule, key+":verdict-used", v.cs.Pos(), "the AEAD verdict is tested or returned as the function's error", "the result of "+exprStr(v.cs.Call)+" is ignored: unauthenticated bytes are treated as opened")
+		r.Check(v.read, rule, key+":after-full-read", v.cs.Pos(), "every full read that reaches this open does so on its success edge", "the open runs although the io.ReadFull before it may have failed: a partially filled buffer is authenticated/consumed")
+	}
+	r.Count("aead_open_sites_"+rule, len(verdicts))
 	// (e) HandleStream: variable-length header parse after in-place open after full read
 	hs := p.Func("ss2022", "StreamServer", "HandleStream")
 	for _, ps := range hs.CallsTo(isFn(mp("ss2022"), "", "ParseTCPRequestVariableLengthHeader")) {
@@ -659,24 +688,12 @@ func c02R4(p *Prog, r *Report) {
 		reqObj := hs.ResultObj(0)
 		// every assignment to req / err inside the handler is dominated by err != nil, n > 0 and IsValid()
 		var errNonNil, nPos, valid []Edge
+		errNonNil = lc.TestEdges(func(e ast.Expr) bool { return objOf(info, e) == errObj }, WantNonNil)
+		nPos = append(lc.TestEdgesCmp(nObj, token.GTR, 0), lc.TestEdgesCmp(nObj, token.GEQ, 1)...)
 		for _, v := range lc.G.V {
-			x, y, op, ok := condParts(v)
+			x, y, _, ok := condParts(v)
 			if !ok {
 				continue
-			}
-			if y != nil && op == token.NEQ && objOf(info, x) == errObj && isNilExpr(info, y) {
-				for _, e := range v.Succs {
-					if e.Label == LTrue {
-						errNonNil = append(errNonNil, e)
-					}
-				}
-			}
-			if y != nil && op == token.GTR && objOf(info, x) == nObj {
-				for _, e := range v.Succs {
-					if e.Label == LTrue {
-						nPos = append(nPos, e)
-					}
-				}
 			}
 			if y == nil {
 				if c, ok := ast.Unparen(x).(*ast.CallExpr); ok {
